@@ -284,6 +284,40 @@ fn stall_receive_exec(case: &(usize, usize), ctx: &WorkerCtx) -> ExecResult {
     })
 }
 
+/// The transport object on its own (it is public): the framing mode is what `set_frame_mode` said last, whether it was said
+/// before or after `connect(stream)`, also on a transport that is connected a second time. What `write` puts on the wire
+/// carries the prefix of that mode, and `read` cuts the peer's bytes by it.
+fn transport_direct_exec(case: &(bool, bool), ctx: &WorkerCtx) -> ExecResult {
+    let (dist_mode, set_before_connect) = *case;
+    run_rt(async move {
+        use edp_client::framing::FrameMode;
+        let mut res = ExecResult::default();
+        let w = crate::world::World::new(ctx.heartbeat.clone(), &ctx.listeners).await;
+        let mode = if dist_mode { FrameMode::Distribution } else { FrameMode::Handshake };
+        let prefix = if dist_mode { 4 } else { 2 };
+        let mut t = edp_client::transport::FramedTransport::new(std::time::Duration::from_secs(30));
+        for round in 0..2 {
+            let addr = format!("127.0.0.1:{}", w.peer_port);
+            let stream = match tokio::net::TcpStream::connect(&addr).await { Ok(s) => s, Err(e) => { res.violations.push(("harness could not connect to its own listener".into(), json!({"error": e.to_string()}))); return res; } };
+            let Some(mut peer) = w.accept_peer().await else { res.violations.push(("no connection reached the peer".into(), json!({}))); return res; };
+            if set_before_connect { t.set_frame_mode(mode); t.connect(stream); } else { t.connect(stream); t.set_frame_mode(mode); }
+            let msg: Vec<u8> = (0..300u32).map(|i| (i % 251) as u8).collect();
+            let wr = t.write(&msg).await;
+            let no_probe = || 0u64;
+            w.settle(&mut peer, &no_probe).await;
+            let want = frame(&msg, prefix);
+            if wr.is_err() || peer.log != want { res.violations.push(("bytes written by the transport differ from the one-shot framing of the mode that was set".into(), json!({"mode": format!("{:?}", mode), "mode_set_before_connect": set_before_connect, "connection_number": round + 1, "written": vcore::report::hex(&peer.log[..peer.log.len().min(12)]), "expected_prefix": vcore::report::hex(&want[..prefix])}))); return res; }
+            peer.send(&frame(&[9, 8, 7], prefix)); peer.send(&frame(&[], prefix));
+            let r1 = { let fut = t.read(); tokio::pin!(fut); let mut out = None; for _ in 0..5000 { tokio::select! { biased; r = &mut fut => { out = Some(r); break; }, _ = tokio::task::yield_now() => { w.beat(); } } } out };
+            if !matches!(&r1, Some(Ok(b)) if b == &vec![9u8, 8, 7]) { res.violations.push(("frames read by the transport differ from the messages written".into(), json!({"mode": format!("{:?}", mode), "mode_set_before_connect": set_before_connect, "connection_number": round + 1, "read": format!("{:?}", r1.map(|r| r.map_err(|e| e.to_string())))}))); return res; }
+            t.close();
+        }
+        res.steps = 4;
+        res.outcome = format!("transport direct {} {}", dist_mode, set_before_connect);
+        res
+    })
+}
+
 /// The writing side over a socket: `send_raw` for a sequence of messages; the peer's bytes must be exactly the one-shot framing.
 fn send_raw_exec(lens: &Vec<usize>, ctx: &WorkerCtx) -> ExecResult {
     let lens = lens.clone();
@@ -333,6 +367,8 @@ pub fn run(rep: &Report) -> Value {
     let st_b: Stats = for_all(rep, "large frames after the handshake; end of stream inside a frame on the read half", &big, |c, ctx| recv_big_exec(c, ctx));
     // the writing side when a write is given up half way (peer stops reading, clock passes the I/O timeout) and the
     // connection is connected again: the new session's peer reads exactly the frames written in it (scenario of C07)
+    let td = [(true, true), (true, false), (false, true), (false, false)];
+    let st_td: Stats = for_all(rep, "the transport on its own, mode set before and after connect, connected twice", &td, |c, ctx| transport_direct_exec(c, ctx));
     let sr: Vec<(usize, usize)> = vec![(0, 0), (0, 1), (0, 2), (1, 0), (1, 1), (1, 2)];
     let st_sr: Stats = for_all(rep, "a frame stalling inside its body past the I/O timeout", &sr, |c, ctx| stall_receive_exec(c, ctx));
     let stalls = [(24usize, false, true), (24, true, true), (24, true, false), (24, false, false)];
@@ -340,6 +376,7 @@ pub fn run(rep: &Report) -> Value {
     json!({
         "stalled_writer_executions": st_stall.executions,
         "stalled_reader_executions": st_sr.executions,
+        "transport_alone_executions": st_td.executions,
         "large_frame_executions": st_b.executions,
         "states": st.executions + st_h.executions + st_w.executions,
         "transitions": st.transitions + st_h.transitions + st_w.transitions,
